@@ -311,7 +311,9 @@ def run_correspondence(pid, cfg, hbin, outdir, args, extra_bins, run, LEAN, log)
     if args.replay:
         kv.append(f"replay={args.replay}")
     t0 = time.time()
-    rc, out, dt = run([hbin, cfg["mode"], prefix] + kv, env=env, timeout=cfg.get("timeout", 3000))
+    # the harness runs with its out directory as working directory: configurations under test may create files at
+    # relative paths (log files named by a mutated field), which must not land in /verif
+    rc, out, dt = run([hbin, cfg["mode"], prefix] + kv, env=env, timeout=cfg.get("timeout", 3000), cwd=outdir)
     log(f"harness {cfg['mode']} rc={rc} {dt:.1f}s")
     cases = _read_lines(prefix + ".cases") if os.path.exists(prefix + ".cases") else []
     impl = _read_lines(prefix + ".impl") if os.path.exists(prefix + ".impl") else []
